@@ -47,3 +47,39 @@ Proof.
   destruct (HS HE) as (pre & f & before & A & B & _ & C & _). exists pre, f, before. repeat split; assumption.
 Qed.
 Print Assumptions C12_acknowledged_records_are_already_appended.
+
+(** The same in terms of what is on disk: the whole records appended to file [n] by a trace.  If a
+    kill leaves the effects [pre] of a trace [pre ++ post] and [n] has already been renamed to its
+    final name in [pre], then [n] holds every record it will ever hold - it is complete - and an
+    in-progress file holds whole records only, the append under way contributing at most a prefix
+    of one record (an append is one effect of the trace). *)
+Definition appended (n : bytes) (es : list effect) : list bytes :=
+  flat_map (fun e => match e with EAppend m x => if bytes_eqb m n then [x] else [] | _ => [] end) es.
+
+Lemma appended_none n l : (forall e, ~ In (EAppend n e) l) -> appended n l = [].
+Proof.
+  induction l as [|x t IH]; intros Hno; [reflexivity|]. unfold appended in *. cbn [flat_map].
+  rewrite IH by (intros e Hin; apply (Hno e); right; exact Hin).
+  destruct x as [m|m y|m|m|m|m s i]; try reflexivity.
+  destruct (bytes_eqb m n) eqn:E; [|reflexivity].
+  apply Proofs.BytesProofs.bytes_eqb_eq in E. subst m. exfalso. apply (Hno y). left. reflexivity.
+Qed.
+
+Theorem C12_a_final_file_holds_all_its_records_at_every_kill_point :
+  forall tbl uni_lower conf name_of scale zsize info_rec,
+    (forall a b, name_of a = name_of b -> a = b) ->
+    forall ops recs stf all,
+      w_run tbl uni_lower conf name_of scale zsize info_rec w_init recs ops = (stf, all) ->
+      forall pre post n, w_effects stf = pre ++ post -> In (ERename n) pre ->
+        appended n (w_effects stf) = appended n pre.
+Proof.
+  intros tbl ul conf name_of scale zsize info_rec Hinj ops recs stf all HR pre post n HE Hin.
+  apply in_split in Hin as (p1 & p2 & ->).
+  assert (Hno : forall e, ~ In (EAppend n e) (p2 ++ post)).
+  { apply (C12_final_files_are_never_written_again tbl ul conf name_of scale zsize info_rec Hinj ops recs stf all HR p1 n (p2 ++ post)).
+    rewrite HE, <- app_assoc. reflexivity. }
+  rewrite HE. unfold appended at 1. rewrite flat_map_app. fold (appended n (p1 ++ ERename n :: p2)) (appended n post).
+  rewrite (appended_none n post) by (intros e Hi; apply (Hno e); apply in_or_app; right; exact Hi).
+  apply app_nil_r.
+Qed.
+Print Assumptions C12_a_final_file_holds_all_its_records_at_every_kill_point.
